@@ -218,6 +218,40 @@ func seqScenario(rng *RNG, model string) string {
 		// a request
 		table := tables[rng.Intn(len(tables))]
 		key := simKeys[rng.Intn(len(simKeys))]
+		if model == "c12w" {
+			// a batch of 2..4 single-row calls over any tables and keys (boundary keys included)
+			m0 := mark()
+			ctx, cancel := context.WithTimeout(context.Background(), 8*time.Second)
+			var calls []hrpc.Call
+			for j, n := 0, 2+rng.Intn(3); j < n; j++ {
+				t, k := table, simKeys[rng.Intn(len(simKeys))] // (one table per batch: SendBatch insists)
+				if rng.Bool() {
+					g, _ := hrpc.NewGet(ctx, []byte(t), k)
+					calls = append(calls, g)
+				} else {
+					p, _ := hrpc.NewPut(ctx, []byte(t), k, map[string]map[string][]byte{"f": {"q": []byte("v")}})
+					calls = append(calls, p)
+				}
+			}
+			res, ok := sc.cl.SendBatch(ctx, calls)
+			cancel()
+			settle()
+			result := "ok"
+			for _, r := range res {
+				if r.Error != nil {
+					result = classOf(r.Error)
+					break
+				}
+			}
+			if result == "ok" && !ok {
+				result = "notallok"
+			}
+			c.mu.Lock()
+			svs := append([]simServe(nil), c.serves[m0:]...)
+			c.mu.Unlock()
+			steps = append(steps, fmt.Sprintf("R:batch:ok:%s:%s", result, attStr(svs)))
+			continue
+		}
 		expect := "ok"
 		switch rng.Intn(12) {
 		case 0:
@@ -565,6 +599,9 @@ var closeOnlyStates = []waitState{
 			}
 		}
 	}},
+	// the connection object for a regionserver is still being constructed (the factory has not
+	// returned) when Close is called; it completes a moment later
+	{"factory-slow", func(c *simCluster) { c.slowNew = 300 * time.Millisecond }},
 	// ZooKeeper answers the pending "where is meta" lookup only after Close has returned
 	{"zk-slow", func(c *simCluster) {
 		c.zkHold = make(chan struct{})
